@@ -114,8 +114,18 @@ def strictlyIncreasing : List Bytes → Bool
 
 /-- `Block.Validate`: header lengths; transaction root = Merkle root of the transaction IDs
 (ID = hash of the re-encoded transaction); assets sorted by module without duplicates; asset root -/
+def isAlnum (b : UInt8) : Bool :=
+  (0x30 ≤ b.toNat && b.toNat ≤ 0x39) || (0x41 ≤ b.toNat && b.toNat ≤ 0x5a) || (0x61 ≤ b.toNat && b.toNat ≤ 0x7a)
+
+/-- `Transaction.Validate` (fields: 0 module, 1 command, 4 senderPublicKey, 5 params, 6 signatures) -/
+def txValid (tx : List Value) : Bool :=
+  (fBytes tx 0).all isAlnum && (fBytes tx 1).all isAlnum &&
+  decide ((fBytes tx 5).length ≤ 14 * 1024) && (fBytes tx 4).length == 32 &&
+  !(fBytesArr tx 6).isEmpty && (fBytesArr tx 6).all (fun s => s.length == 64)
+
 def blockValid (t : Table) (nfc : NFC) (H : Bytes → Bytes) (b : Block) : Bool :=
   headerValid b.header &&
+  b.txs.all txValid &&
   (RMT.root (rmtHashes H) (b.txs.map fun tx => H (encodeNamed t nfc "blockchain.Transaction" tx))
       == fBytes b.header 5) &&
   strictlyIncreasing (b.assets.map fun a => fBytes a 0) &&
@@ -130,15 +140,6 @@ def blockValidator (t : Table) (nfc : NFC) (H : Bytes → Bytes) (data : Bytes) 
   | .ok b => if blockValid t nfc H b then .accept else .reject
 
 /-! ### transactions -/
-
-def isAlnum (b : UInt8) : Bool :=
-  (0x30 ≤ b.toNat && b.toNat ≤ 0x39) || (0x41 ≤ b.toNat && b.toNat ≤ 0x5a) || (0x61 ≤ b.toNat && b.toNat ≤ 0x7a)
-
-/-- `Transaction.Validate` (fields: 0 module, 1 command, 4 senderPublicKey, 5 params, 6 signatures) -/
-def txValid (tx : List Value) : Bool :=
-  (fBytes tx 0).all isAlnum && (fBytes tx 1).all isAlnum &&
-  decide ((fBytes tx 5).length ≤ 14 * 1024) && (fBytes tx 4).length == 32 &&
-  !(fBytesArr tx 6).isEmpty && (fBytesArr tx 6).all (fun s => s.length == 64)
 
 /-- `TransactionPool.transactionValidator` on the payload of a transaction announcement -/
 def transactionValidator (t : Table) (nfc : NFC) (data : Bytes) : Verdict :=
